@@ -41,7 +41,8 @@ Opaque == <<"o">>
 RECURSIVE Wire(_, _, _), WireArgs(_, _, _, _, _, _)
 Wire(ns, n, base) ==
   LET x == ns[n] IN
-  CASE x.k = "const" -> <<<<>>, <<"c", x.text>>, TRUE>>
+  \* (a string constant and a number constant with the same spelling are different values)
+  CASE x.k = "const" -> <<<<>>, <<"c", IF x.op = "quoted" THEN "'" \o x.text \o "'" ELSE x.text>>, TRUE>>
     [] x.k = "var"   -> <<<<>>, <<"v", x.key>>, TRUE>>
     [] x.k = "un" ->
          LET c == Wire(ns, x.kids[1], base) IN
